@@ -12,7 +12,7 @@ from bip_utils.electrum.mnemonic_v1.electrum_v1_mnemonic_utils import ElectrumV1
 from bip_utils.bip.bip39.bip39_mnemonic_utils import Bip39WordsListGetter
 from bip_utils import ElectrumV1Languages
 
-LEAN_MODULES = ["BipVerif.Props.C17", "BipVerif.Props.C17Tables"]
+LEAN_MODULES = ["BipVerif.Props.C17", "BipVerif.Props.C17Tables", "BipVerif.Props.C17Langs"]
 N = 1626
 
 
